@@ -5,11 +5,37 @@ sys.path.insert(0, os.path.dirname(os.path.abspath(__file__)))
 import vf, args, overlay
 
 
+def pathtree(ck):
+    """The path tree under every view (PathTree.tla): every operation sequence replayed into the real pathtree.Node."""
+    s = vf.tlc("PathTree", "PathTree-sanity.cfg", workers=2, collect=False, timeout=120)
+    if s.violated != "Sanity":
+        raise vf.NotAVerdict("PathTree sanity invariant not violated")
+    for c in ["PathTree-3.cfg", "PathTree-4.cfg"]:
+        r = vf.require_ok(vf.tlc("PathTree", c, timeout=900), c)
+        ck.add_tlc(c, r, open(os.path.join(vf.SPEC, "cfg", c)).read().split("SPECIFICATION")[0].strip())
+        obs = vf.run_harness("vimage", "pathtree", r.cases)
+        if len(obs) != len(r.cases):
+            raise vf.NotAVerdict("pathtree harness returned %d of %d" % (len(obs), len(r.cases)))
+        for o in obs:
+            if o["mismatch"] and len(ck.violations) < 60:
+                ck.violation("C04 path tree: " + o["mismatch"], {"family": "pathtree", "case": r.cases[o["i"]], "mismatch": [o["mismatch"]]})
+        ck.count(len(obs))
+        ck.cov["traces_validated_against_impl"] += len(obs)
+        ck.cov["pathtree_sequences"] = ck.cov.get("pathtree_sequences", 0) + len(obs)
+
+
 def main():
     a = args.parse()
     ck = vf.Check("C04", "model_checking", tier=a.tier, seed=a.seed)
     if a.replay:
-        overlay.replay_one(ck, json.load(open(a.replay))["replay"])
+        rec = json.load(open(a.replay))["replay"]
+        if rec.get("family") == "pathtree":
+            obs = vf.run_harness("vimage", "pathtree", [rec["case"]])
+            if obs[0]["mismatch"]:
+                ck.violation("C04 path tree: " + obs[0]["mismatch"], rec)
+            ck.count(1); ck.cov["distinct_nontrivial"] += 2; ck.sample(rec["case"])
+        else:
+            overlay.replay_one(ck, rec)
         return ck.finish()
     for sc, inv in (("LayerOverlay-sanity1.cfg", "SanityDisagree"), ("LayerOverlay-sanity2.cfg", "SanityWhiteout")):
         s = vf.tlc("LayerOverlay", sc, workers=4, collect=False, timeout=300)
@@ -19,6 +45,7 @@ def main():
     if ck.thorough():
         fams += ["LayerOverlay-gen-22.cfg", "LayerOverlay-gen-211.cfg"]
     overlay.run_family(ck, fams, allvariants=ck.thorough())
+    pathtree(ck)
     ck.cov["exhaustive"] = True
     ck.cov["rule"] = ("every image reachable in LayerOverlay.tla under the cfg constants: 1..3 layers of up to 1-3 entries (regular files with two contents/modes, directories, symlinks, whiteouts, "
                       "opaque whiteouts) over a 5-path universe of depth 3, any entry order, consistent snapshot diffs only; each image is written as real tar layers (plain, './'-prefixed, absolute "
